@@ -20,13 +20,13 @@ func genC02(t *rapid.T) KeyCase {
 	// key-emulating axes are part of the worlds (held deflected across the actions, shaped differently or absent in the other
 	// mappings): "the actions themselves emit no MIDI messages" is owed whatever else the device is holding
 	d := genWorld(t, WorldOpts{Modes: allModes, MaxMappings: 3, Actions: allKeyActions[:10], ActionProb: 80, Subs: 2, Twins: true, Overlap: true, KeyAxes: 2, AxesVary: true})
-	steps := genHistory(t, d, HistOpts{MaxLen: 50, StateBias: 70, BurstMax: 3, Repeats: true, UnmappedKey: true, Axes: true})
+	steps := genHistory(t, d, HistOpts{MaxLen: 50, StateBias: 70, BurstMax: 3, Repeats: true, UnmappedKey: true, Axes: true, MidiIn: true})
 	return KeyCase{D: d, Steps: steps, NoLogs: rapid.IntRange(0, 7).Draw(t, "nologs") > 0, Bystander: genBystander(t, d)}
 }
 
 func genC03(t *rapid.T) KeyCase {
 	d := genWorld(t, WorldOpts{Modes: allModes, MaxMappings: 2, Actions: append(append([]string{}, stateActions...), "panic"), ActionProb: 60, Subs: 2, Twins: true})
-	steps := genHistory(t, d, HistOpts{MaxLen: 50, StateBias: 35, BurstMax: 2, Repeats: true})
+	steps := genHistory(t, d, HistOpts{MaxLen: 50, StateBias: 35, BurstMax: 2, Repeats: true, MidiIn: true})
 	return KeyCase{D: d, Steps: steps, NoLogs: rapid.IntRange(0, 7).Draw(t, "nologs") > 0, Bystander: genBystander(t, d)}
 }
 
@@ -116,7 +116,7 @@ func genC13(t *rapid.T) C13Case {
 		}
 	}
 	// the base history may contain panic taps itself (half of the cases): several panics with state changes between them
-	steps := genHistory(t, d, HistOpts{MaxLen: 40, StateBias: 30, BurstMax: 2, NoPanic: rapid.Bool().Draw(t, "basePanicFree")})
+	steps := genHistory(t, d, HistOpts{MaxLen: 40, StateBias: 30, BurstMax: 2, NoPanic: rapid.Bool().Draw(t, "basePanicFree"), MidiIn: true})
 	// panic is injected at every point of the history - also while both keys of an up/down pair are held (C04 excludes a
 	// third action there; C13 quantifies over every point, and panic is the one action that must always get through);
 	// half of the cases aim at such a point when the history has one
